@@ -607,9 +607,12 @@ def run_impl(ctx, case, steps):
         attrs1 = {name: id(val) for name, val in vars(br).items()}
         if attrs1 != attrs0:
             diff = sorted(set(attrs0) ^ set(attrs1)) + sorted(k for k in attrs0 if k in attrs1 and attrs0[k] != attrs1[k])
-            ctx.oracle_failure(f'{kind} leaves new or re-bound instance attributes {diff} on the browser it is '
-                               f'called on (a selection is a pure read) :: {case}', case,
-                               key='browser-attributes-changed')
+            # structural, not behavioural: a harmless cache on the browser object would do this too.
+            # Recorded in the evidence only.
+            ctx.count('note_browser_attributes_changed')
+            note = f'NOTE (not a violation): {kind} leaves new or re-bound instance attributes {diff} on the browser'
+            if note not in ctx.notes:
+                ctx.notes.append(note)
         if snap_dicts(inputs) != in_snap:
             ctx.oracle_failure(f'{kind} modifies the input dictionaries :: {case}', case,
                                key='inputs-modified')
@@ -819,12 +822,15 @@ def run_concurrent(ctx, cases, nmax):
             ctx.oracle_failure(f'a selection blocked by another one on the same browser :: {rcase}', rcase,
                                key='concurrent-deadlock')
             continue
+        attrs1 = {name: id(val) for name, val in vars(br).items()}
+        rebound = sorted(set(attrs0) ^ set(attrs1)) + sorted(k for k in attrs0 if k in attrs1 and attrs0[k] != attrs1[k])
+        if rebound:
+            ctx.count('note_browser_attributes_changed')
         if box.get('out') != seq_a or out_b != seq_b:
             ctx.oracle_failure(f'two overlapping selections on one browser: A gives {box.get("out")} (alone: {seq_a}), '
-                               f'B gives {out_b} (alone: {seq_b}) :: {rcase}', rcase, key='concurrent-selections')
-        if {name: id(val) for name, val in vars(br).items()} != attrs0:
-            ctx.oracle_failure(f'selections leave new or re-bound instance attributes on the browser :: {rcase}',
-                               rcase, key='browser-attributes-changed')
+                               f'B gives {out_b} (alone: {seq_b})'
+                               + (f'; instance attributes re-bound by the selections: {rebound}' if rebound else '')
+                               + f' :: {rcase}', rcase, key='concurrent-selections')
 
 
 def coq_case(step):
